@@ -35,7 +35,7 @@ RULE = (
     "digest of the case."
 )
 ASSUMPTIONS = [
-    "a command header `Result = Command(` is written on one line (as everywhere in the docs)",
+    "a result name, its `=` and the command name are written on one line (as everywhere in the docs); the opening parenthesis may follow on a later line",
     "the documented lexical grammar: unquoted strings may not contain #:,=()[] or quotes; a colon is allowed in a top-level unquoted value",
 ]
 
